@@ -372,23 +372,76 @@ def rule_e(model, rep):
 
 
 # ----------------------------------------------------------------------------- f. needs_update shape
+INSPECTORS = {"inspect_sha_crypt", "inspect_pbkdf2_hash", "inspect_bcrypt_hash", "inspect_phc"}
+HASHERS = [(LS, "_ShaHasher"), (LP, "PBKDF2SHAHandler"), (LB, "BcryptHasher"), (LB, "BcryptSHA256Hasher")]
+
+
+def _parse_call(fn):
+    """(var, call) of the first `<var> = <parser>(...)` / the parser call inside `return <parser>(...) is not None`"""
+    for n in walk_no_nested(fn):
+        if isinstance(n, ast.Assign) and isinstance(n.value, ast.Call) and isinstance(n.targets[0], ast.Name):
+            f = n.value.func
+            nm = f.id if isinstance(f, ast.Name) else f.attr if isinstance(f, ast.Attribute) else ""
+            if nm in INSPECTORS or nm == "_inspect":
+                return n.targets[0].id, n.value
+    for n in walk_no_nested(fn):
+        if isinstance(n, ast.Return) and isinstance(n.value, ast.Compare) and isinstance(n.value.left, ast.Call) and isinstance(n.value.ops[0], ast.IsNot):
+            return None, n.value.left
+    return None, None
+
+
+def _parser_key(model, u, cn, fn, call):
+    """record parser a method reads the string with: the inspect_* function reached directly, through the class's `_inspect` helper
+    (own or in a subclass), or through `self.identify(hash)` used as a gate"""
+    if call is None:
+        for n in walk_no_nested(fn):
+            if isinstance(n, ast.If) and "self.identify(" in ast.unparse(n.test) and isinstance(n.test, ast.UnaryOp) and ast.unparse(n.body[0]) == "return False":
+                idf = model.func(u, f"{cn}.identify")
+                _, c2 = _parse_call(idf)
+                return _parser_key(model, u, cn, idf, c2)
+        return None
+    f = call.func
+    nm = f.id if isinstance(f, ast.Name) else f.attr
+    if nm == "_inspect":
+        keys = set()
+        for cref in [(u, cn)] + model.subclasses((u, cn)):
+            h = model.func(cref[0], f"{cref[1]}._inspect", required=False)
+            if h is None:
+                continue
+            calls = [c for c in walk_no_nested(h) if isinstance(c, ast.Call) and isinstance(c.func, ast.Name) and c.func.id in INSPECTORS]
+            extra = "+checks" if any(isinstance(x, ast.If) for x in walk_no_nested(h)) else ""   # the helper narrows what the inspector accepts
+            keys |= {c.func.id + extra for c in calls}
+        return "+".join(sorted(keys)) or None
+    return nm if nm in INSPECTORS else None
+
+
 def rule_f(model, rep):
+    """needs_update / identify / verify of one hasher read the string through the same record parser; needs_update answers True when the parser
+    rejects, else compares the cost of the record with the configured one"""
     R = "C20.f-needs-update"
-    cases = [
-        (LS, "_ShaHasher.needs_update", "info = inspect_sha_crypt(hash=as_str(hash), cls=self._info_cls)", "info is None", "(info.rounds or self._DEFAULT_ROUNDS) != self._rounds"),
-        (LP, "PBKDF2SHAHandler.needs_update", "hash_info = inspect_pbkdf2_hash(hash=as_str(hash), cls=self.HASH_INFO_CLS)", "not hash_info", "hash_info.rounds != self._rounds"),
-        (LB, "BcryptHasher.needs_update", "info = inspect_bcrypt_hash(as_str(hash))", "info is None", "info.rounds != self._rounds"),
-        (LB, "BcryptSHA256Hasher.needs_update", "info = inspect_phc(as_str(hash), BcryptSHA256PHCV2)", "not info", "info.rounds != self._rounds"),
-    ]
-    for u, q, parse, none_test, ret in cases:
-        fn = model.func(u, q)
-        ok = has_stmt(fn, parse) and has_if(fn, none_test, ["return True"]) and returns(fn) == ["True", ret]
-        rep.check(ok, R, site(u, q), "; ".join(returns(fn)), "needs_update: True for strings of another format, else `cost in the string != configured cost`",
-                  witness=f"{q.split('.')[0]}: a fresh hash is reported as needing an update, or a hash made at another cost is not")
-    for u, q, want in ((LS, "_ShaHasher.identify", "self._inspect(as_str(hash)) is not None"), (LP, "PBKDF2SHAHandler.identify", "inspect_pbkdf2_hash(hash=as_str(hash), cls=self.HASH_INFO_CLS) is not None"),
-                       (LB, "BcryptHasher.identify", "inspect_bcrypt_hash(as_str(hash)) is not None"), (LB, "BcryptSHA256Hasher.identify", "inspect_phc(as_str(hash), BcryptSHA256PHCV2) is not None")):
-        fn = model.func(u, q)
-        rep.check(returns(fn) == [want], R, site(u, q), "; ".join(returns(fn)), "identify: the record parser of the hasher's own format accepts the string")
+    for u, cn in HASHERS:
+        fns = {m: model.func(u, f"{cn}.{m}") for m in ("needs_update", "identify", "verify")}
+        keys = {}
+        for m, fn in fns.items():
+            var, call = _parse_call(fn)
+            keys[m] = (_parser_key(model, u, cn, fn, call), var)
+        s = site(u, f"{cn}.needs_update")
+        pk = {k for k, _ in keys.values()}
+        rep.check(len(pk) == 1 and None not in pk, R, site(u, f"{cn}.identify ~ verify ~ needs_update"), f"{ {m: k for m, (k, _) in keys.items()} }",
+                  "identify, verify and needs_update read the string through the same record parser",
+                  witness=f"{cn}: a string verify() accepts is not identified (or the reverse); needs_update() judges a different format than verify() uses")
+        fn = fns["needs_update"]
+        var = keys["needs_update"][1]
+        rets = returns(fn)
+        none_ok = var is not None and (has_if(fn, f"{var} is None", ["return True"]) or has_if(fn, f"not {var}", ["return True"]))
+        final = rets[-1] if rets else ""
+        cost_ok = var is not None and final in (f"{var}.rounds != self._rounds", f"({var}.rounds or self._DEFAULT_ROUNDS) != self._rounds")
+        if final.startswith("(") and cn != "_ShaHasher":
+            cost_ok = False   # only sha-crypt strings may omit the cost
+        rep.check(none_ok and cost_ok and rets[:-1] == ["True"], R, s, "; ".join(rets), "needs_update: True for strings of another format, else `cost in the string != configured cost`",
+                  witness=f"{cn}: a fresh hash is reported as needing an update, or a hash made at another cost is not")
+        ident = returns(fns["identify"])
+        rep.check(len(ident) == 1 and ident[0].endswith(" is not None"), R, site(u, f"{cn}.identify"), "; ".join(ident), "identify: exactly `the record parser of the hasher's own format accepts the string`")
     # constructor stores the configured cost under the name needs_update reads
     for u, q, want in ((LS, "_ShaHasher.__init__", "self._rounds = rounds"), (LP, "PBKDF2SHAHandler.__init__", "self._rounds = rounds or self.DEFAULT_ROUNDS"), (LB, "BcryptHasher.__init__", "self._rounds = rounds"), (LB, "BcryptSHA256Hasher.__init__", "self._rounds = rounds")):
         rep.check(has_stmt(model.func(u, q), want), R, site(u, q), want, "configured cost stored once, read by hash() and needs_update()")
@@ -397,6 +450,122 @@ def rule_f(model, rep):
         info = ast.unparse(model.class_members((LS, cn)).get("_info_cls"))
         rep.check(returns(fn) == [f"inspect_sha_crypt(hash, cls={info})"], R, site(LS, f"{cn}._inspect"), "; ".join(returns(fn)) + f" / _info_cls={info}", f"{cn}: _inspect parses with the class in its _info_cls slot")
     rep.minimum(R, 14)
+
+
+def _info_fields(model, cref):
+    out = []
+    for c in reversed(model.mro(cref)):
+        try:
+            cd = model.cls(*c)
+        except Exception:
+            continue
+        for st in cd.body:
+            if isinstance(st, ast.AnnAssign) and isinstance(st.target, ast.Name) and "ClassVar" not in ast.unparse(st.annotation) and not st.target.id.isupper():
+                if st.target.id not in out:
+                    out.append(st.target.id)
+    return out
+
+
+def rule_i(model, rep):
+    """every field the record parser extracts feeds the verification (or is pinned to the one value the hasher implements):
+    a field parsed and then ignored is a setting an altered string can change freely"""
+    R = "C20.i-parsed-fields-consumed"
+    INFO = {"_ShaHasher": ("libpass.inspect.sha_crypt", "SHACryptInfo"), "PBKDF2SHAHandler": ("libpass.inspect.pbkdf2", "BasePBKDF2CryptInfo"),
+            "BcryptHasher": ("libpass.inspect.bcrypt", "BcryptHashInfo"), "BcryptSHA256Hasher": ("libpass.inspect.phc.defs", "BcryptSHA256PHCV2")}
+    for u, cn in HASHERS:
+        fn = model.func(u, f"{cn}.verify")
+        var, call = _parse_call(fn)
+        fields = [f for f in _info_fields(model, INFO[cn]) if f != "id"]   # `id` selects the definition inside the parser
+        if not fields or _parser_key(model, u, cn, fn, call) is None:
+            rep.undecided(R, site(u, f"{cn}.verify"), f"record parser / fields not found (var={var}, fields={fields})")
+            continue
+        nodes = list(walk_no_nested(fn))
+        read = {n.attr for n in nodes if var and isinstance(n, ast.Attribute) and isinstance(n.value, ast.Name) and n.value.id == var}
+        # the stored string itself handed to the comparing call (bcrypt.checkpw / compare_digest with a re-rendered string): every field takes part
+        whole = any(isinstance(n, ast.Call) and ast.unparse(n.func) in ("bcrypt.checkpw", "hmac.compare_digest") and
+                    any(ast.unparse(a) in ("hash", "as_bytes(hash)", "as_str(hash)") for a in list(n.args) + [k.value for k in n.keywords]) for n in nodes)
+        pinned = set()
+        f = call.func if call is not None else None
+        if call is not None and isinstance(f, ast.Attribute) and f.attr == "_inspect":
+            helper = model.func(u, f"{cn}._inspect", required=False)
+            if helper is not None:
+                hv, _ = _parse_call(helper)
+                for c in walk_no_nested(helper):
+                    if isinstance(c, ast.Compare) and isinstance(c.left, ast.Attribute) and isinstance(c.left.value, ast.Name) and c.left.value.id == hv and isinstance(c.comparators[0], ast.Constant):
+                        pinned.add(c.left.attr)
+        for fld in fields:
+            ok = fld in read or fld in pinned or whole
+            rep.check(ok, R, site(u, f"{cn}.verify") + f" .{fld}", f"fields read {sorted(read)}, pinned by _inspect {sorted(pinned)}",
+                      f"record field `{fld}` is used by verify() or pinned to the implemented value",
+                      witness=f"{cn}.verify(h', pw) is True for h' = h with `{fld}` altered (e.g. bcrypt-sha256 'v=2' -> 'v=3'): passlib refuses the string, libpass verifies it")
+    rep.minimum(R, 12)
+
+
+def rule_j(model, rep):
+    """identify() answers for every string: int() refuses digit strings longer than sys.int_max_str_digits (4300) with ValueError, so a record
+    parser that converts an unbounded digit group outside try/except ValueError makes identify()/needs_update() raise"""
+    import sys
+    R = "C20.j-identify-total"
+    LIMIT = 4300
+    n = 0
+    for un, unit in model.units.items():
+        if not un.startswith("libpass.inspect"):
+            continue
+        regexes = {}
+        for cd in [c for c in unit.tree.body if isinstance(c, ast.ClassDef)]:
+            for st in cd.body:
+                if isinstance(st, ast.Assign) and isinstance(st.value, ast.Call) and "compile" in ast.unparse(st.value.func):
+                    regexes[(cd.name, st.targets[0].id)] = st.value
+        for name, vals in unit.assigns.items():
+            for v in vals:
+                if isinstance(v, ast.Call) and "compile" in ast.unparse(v.func):
+                    regexes[(None, name)] = v
+        for q, fn in unit.functions():
+            guarded = set()
+            for t in [x for x in walk_no_nested(fn) if isinstance(x, ast.Try)]:
+                if any(h.type is None or "ValueError" in ast.unparse(h.type) or ast.unparse(h.type) == "Exception" for h in t.handlers):
+                    for st in t.body:
+                        guarded |= {id(x) for x in ast.walk(st)}
+            groups_of = {}
+            for a in walk_no_nested(fn):
+                if isinstance(a, ast.Assign) and isinstance(a.targets[0], ast.Name) and isinstance(a.value, ast.Call) and ast.unparse(a.value.func).endswith(".group") and a.value.args and isinstance(a.value.args[0], ast.Constant):
+                    groups_of[a.targets[0].id] = a.value.args[0].value
+            for c in walk_no_nested(fn):
+                if not (isinstance(c, ast.Call) and isinstance(c.func, ast.Name) and c.func.id == "int" and c.args):
+                    continue
+                a = c.args[0]
+                g = None
+                if isinstance(a, ast.Call) and ast.unparse(a.func).endswith(".group") and a.args and isinstance(a.args[0], ast.Constant):
+                    g = a.args[0].value
+                elif isinstance(a, ast.Subscript) and isinstance(a.slice, ast.Constant):
+                    g = a.slice.value
+                elif isinstance(a, ast.Name):
+                    g = groups_of.get(a.id)
+                if g is None:
+                    continue
+                n += 1
+                s = site(un, q) + f" int(<{g}>)"
+                if id(c) in guarded:
+                    rep.hold(R, s, "conversion inside try/except ValueError")
+                    continue
+                worst = 0
+                for (cn, rn), node in regexes.items():
+                    try:
+                        pat, flags = fold_regex(model, unit, node, cls=(un, cn) if cn else None)
+                    except Exception:
+                        continue
+                    shape = T.group_shape(pat, flags, g)
+                    if shape is None:
+                        continue
+                    reps, _ = shape
+                    for lo, hi in reps:
+                        worst = max(worst, int(hi) if str(hi).isdigit() else 10 ** 9)
+                    if not reps:
+                        worst = max(worst, 10 ** 9)
+                rep.check(0 < worst <= LIMIT, R, s, f"group <{g}> admits up to {'unbounded' if worst >= 10 ** 9 else worst} digits; int() takes at most {LIMIT}",
+                          "a digit group converted with int() outside try/except ValueError is bounded below the interpreter's integer-string limit",
+                          witness="SHA256Hasher().identify('$5$rounds=' + '1' * 5000 + '$abc$' + 'a' * 43) raises ValueError instead of answering False")
+    rep.minimum(R, 4)
 
 
 # ----------------------------------------------------------------------------- driver
@@ -413,5 +582,7 @@ def run(model, rep):
     rule_d(model, rep, table)
     rule_e(model, rep)
     rule_f(model, rep)
+    rule_i(model, rep)
+    rule_j(model, rep)
     c04.rule_f(model, Renamed(rep, {"C04.f": "C20.g-libpass-context"}))
     c12.rule_copies(model, Renamed(rep, {"C12.g": "C20.h-libpass-copies"}))
